@@ -385,7 +385,8 @@ pub fn check_main(scn: &dyn Scenario, prop_arg: &str, opts: &CheckOptions) -> i3
                 json!({"i": i, "seed": seed, "log": "hung", "evals": 1, "num": {"liveness.cases_without_return": 1},
                     "issues": [{"prop": prop, "rule": "no-return", "sig": "", "msg": format!("the case did not return within {secs} s of CPU time (normal cost of a case: milliseconds): livelock or unbounded work in the code under test")}]})
             });
-            if attempt < 50 {
+            // (eight cases without return are a verdict: the rest of a slice is not worth two CPU minutes per further case)
+            if attempt < 50 && hung_cases < 8 {
                 let (c, o) = spawn(w, i + jobs as u64, &[], attempt + 1);
                 children.push((w, attempt + 1, c, o));
             }
